@@ -581,6 +581,13 @@ v("C07", "firewall-parser-wrong-list", "break", FIREWALL,
                     firewall.dmz_outbound_acl.add_rule(''',
   '''                for r_num, r_cfg in config["acl"]["dmz_outbound_acl"].items():
                     firewall.dmz_inbound_acl.add_rule(''', "R7.4", "dmz_outbound rules loaded into the inbound list")
+v("C07", "mask-not-negated", "break", ROUTER,
+  "    masked_base_ip = base_ip_int & ~wildcard_int\n    masked_ip_to_check = ip_to_check_int & ~wildcard_int",
+  "    masked_base_ip = base_ip_int & wildcard_int\n    masked_ip_to_check = ip_to_check_int & wildcard_int", "R7.5", "the mask selects the bits to compare instead of the bits to ignore")
+v("C07", "mask-one-side", "break", ROUTER,
+  "    masked_ip_to_check = ip_to_check_int & ~wildcard_int", "    masked_ip_to_check = ip_to_check_int", "R7.5", "only the base address is masked")
+v("C07", "benign-xor-form", "benign", ROUTER,
+  "    return masked_base_ip == masked_ip_to_check", "    return (base_ip_int ^ ip_to_check_int) & ~wildcard_int == 0", None, "same predicate written with xor")
 v("C07", "benign-break-to-return-shape", "benign", ROUTER,
   '''        if not rule:
             permitted = self.implicit_action == ACLAction.PERMIT
